@@ -119,7 +119,18 @@ func (w *world) deliver(c pb.Chunk, tag deliverTag) {
 			w.stopped = true
 			return
 		}
-		w.ctx.Violate(Prop, "panic", "receiver panicked on chunk %s: %s", tag.desc, panicked)
+		expect := [...]string{"ignore it: " + why, "reject it: replica removed", "accept it", "any reaction but a crash"}[exp]
+		if exp == expAny {
+			switch {
+			case st != nil && st.unknown && rc.ChunkId != 0:
+				expect += ": " + st.unknownWhy
+			case tag.mainCorrupt:
+				expect += ": chunk with altered main file data"
+			default:
+				expect += ": stream carrying altered main file data"
+			}
+		}
+		w.ctx.Violate(Prop, "panic", "receiver panicked on chunk %s [expected: %s]: %s", tag.desc, expect, panicked)
 		return
 	}
 
@@ -202,9 +213,11 @@ func (w *world) deliver(c pb.Chunk, tag deliverTag) {
 			st.poisoned = true
 			st.corrupt = tag.corrupt
 			st.unknown = !ok // the old stream may or may not have survived
+			st.unknownWhy = "stream in an unspecified state after a refused first chunk with altered data"
 		}
 		if tag.src.degenerate {
 			st.unknown = true
+			st.unknownWhy = "file name that is no file name"
 		}
 		w.streams[k] = st
 	} else if st != nil {
